@@ -2,7 +2,9 @@ import Aiorpcx.Common.Hex
 import Aiorpcx.C13.Model
 /-! Line-protocol driver for the C13 limiter model.
     in : `<init>[!] <op> <op> ...` (`!` = the pinned class, before F23) with ops `e<i>` enter, `x<i>` exit, `c<i>` cancel waiter `i`,
-         `t<n>` set_target(n) (n may be negative: `t-1`)
+         `t<n>` set_target(n) (n may be negative: `t-1`),
+         `y<i>:<j>` exit of i and cancellation of waiter j in ONE loop iteration, `z<n>:<i>`
+         set_target(n) and exit of i back to back
     out: one record per op, joined by ` | `:
          `<events>;h=<holders sorted>;w=<waiters FIFO>;T=<target>` with events `E<i>` entered,
          `R<i>` refused, `C<i>` cancelled, `B` bad, `-` when there is none. -/
@@ -19,6 +21,18 @@ def showList (l : List Nat) : String :=
 
 def sortNat (l : List Nat) : List Nat := (l.toArray.qsort (· < ·)).toList
 
+/-- driver operations: the model's, plus the composites `y<i>:<j>` (exit of i and cancellation of
+waiter j in one loop iteration) and `z<n>:<i>` (`set_target(n)` and the exit of i back to back) -/
+inductive DOp where
+  | one (op : Op)
+  | exitCancel (i j : Nat)
+  | targetExit (n : Int) (i : Nat)
+
+def parsePair (r : List Char) : Option (String × String) :=
+  match (String.ofList r).splitOn ":" with
+  | [a, b] => some (a, b)
+  | _ => none
+
 def parseOp (s : String) : Option Op :=
   match s.toList with
   | 'e' :: r => (String.ofList r).toNat?.map Op.enter
@@ -31,16 +45,29 @@ def record (s : Lim) (evs : List Ev) : String :=
   let e := if evs.isEmpty then "-" else String.intercalate "," (evs.map showEv)
   s!"{e};h={showList (sortNat s.holders)};w={showList s.waiters};T={s.T}"
 
-def go (s : Lim) : List Op → List String
+def parseDOp (s : String) : Option DOp :=
+  match s.toList with
+  | 'y' :: r => (parsePair r).bind (fun p => match p.1.toNat?, p.2.toNat? with
+      | some i, some j => some (DOp.exitCancel i j) | _, _ => none)
+  | 'z' :: r => (parsePair r).bind (fun p => match p.1.toInt?, p.2.toNat? with
+      | some n, some i => some (DOp.targetExit n i) | _, _ => none)
+  | _ => (parseOp s).map DOp.one
+
+def dstep (s : Lim) : DOp → Lim × List Ev
+  | .one op => step s op
+  | .exitCancel i j => stepExitCancel s i j
+  | .targetExit n i => let r1 := step s (.setTarget n); let r2 := step r1.1 (.exit i); (r2.1, r1.2 ++ r2.2)
+
+def go (s : Lim) : List DOp → List String
   | [] => []
-  | op :: ops => let r := step s op; record r.1 r.2 :: go r.1 ops
+  | op :: ops => let r := dstep s op; record r.1 r.2 :: go r.1 ops
 
 def handle (line : String) : String :=
   match (line.splitOn " ").filter (· ≠ "") with
   | n :: ops =>
     let pinned := n.endsWith "!"
     let n := if pinned then (n.dropEnd 1).toString else n
-    match n.toInt?, ops.mapM parseOp with
+    match n.toInt?, ops.mapM parseDOp with
     | some n, some ops =>
         if ops.isEmpty then "."
         else String.intercalate " | " (go (if pinned then initPinned n.toNat else init n) ops)
